@@ -3,6 +3,8 @@
 use crate::kernel::{self, with, Wait};
 
 pub const CLOSE_MARK: u32 = 0xFFFF_FFFF;
+/// stands for a frame the protocol layer rejects (unmasked / oversized / invalid UTF-8 ...)
+pub const BROKEN_MARK: u32 = 0xFFFF_FFFE;
 
 pub fn write_frame(ep: usize, payload: &[u8]) -> Result<(), ()> {
     let mut v = Vec::with_capacity(payload.len() + 4);
@@ -13,6 +15,10 @@ pub fn write_frame(ep: usize, payload: &[u8]) -> Result<(), ()> {
 
 pub fn write_close(ep: usize) -> Result<(), ()> {
     write_all(ep, &CLOSE_MARK.to_be_bytes())
+}
+
+pub fn write_broken(ep: usize) -> Result<(), ()> {
+    write_all(ep, &BROKEN_MARK.to_be_bytes())
 }
 
 pub fn write_all(ep: usize, v: &[u8]) -> Result<(), ()> {
@@ -45,6 +51,7 @@ pub fn pump(ep: usize, buf: &mut Vec<u8>) -> bool {
 pub enum Frame {
     Data(Vec<u8>),
     Close,
+    Broken,
 }
 
 pub fn take_frame(buf: &mut Vec<u8>) -> Option<Frame> {
@@ -55,6 +62,10 @@ pub fn take_frame(buf: &mut Vec<u8>) -> Option<Frame> {
     if len == CLOSE_MARK {
         buf.drain(..4);
         return Some(Frame::Close);
+    }
+    if len == BROKEN_MARK {
+        buf.drain(..4);
+        return Some(Frame::Broken);
     }
     let len = len as usize;
     if buf.len() < 4 + len {
